@@ -17,5 +17,10 @@ H = [
       renames={"(*go.dedis.ch/kyber/v4/group/edwards25519.point).MarshalBinary": "canonStubMarshal"},
       stubs=["(*point).MarshalBinary -> harness stub returning the listed encoding"],
       functions=["edwards25519.(*point).HasSmallOrder"], bound="the 8 torsion points (symbolic index into a list written independently of weakKeys)"),
+ dict(name="schnorr.VerifyWithChecks", pkg="./sign/schnorr", files=["harness/C08/schnorr_checks.go"], entry="HarnessVerifyWithChecks", mode="bv", unwind=200,
+      renames={"go.dedis.ch/kyber/v4/sign/schnorr.hash": "fkHash"}, replay_entry="HarnessVerifyWithChecksReplay",
+      stubs=["kyber.Group -> recording fake whose IsCanonical / HasSmallOrder / Equal return arbitrary verdicts", "schnorr.hash -> stub (the hash is not the subject)"],
+      functions=["schnorr.VerifyWithChecks"], bound="all 32-byte keys and 64-byte signatures, all verdicts of the group's predicates",
+      mutants=[dict(id="C08a", file="sign/schnorr/schnorr.go", old="\t\tif !p.IsCanonical(sig[:pointSize]) {\n\t\t\treturn errors.New(\"point R is not canonical\")\n\t\t}", new="\t\t_ = p.IsCanonical")]),
 ]
 json.dump(dict(property="C08", harnesses=H), open(os.path.join(os.path.dirname(__file__), "..", "specs", "C08.json"), "w"), indent=1)
